@@ -349,13 +349,15 @@ theorem template_literal (mc : UInt8) (tmpl : Bytes) (tr : List Bytes) (h : NoVa
   simp
 
 /-- Every capturing spelling is recognised as that variable: a run of `k ∈ {1,2,3}` sigils
-followed by a maximal name `[A-Z0-9_]+`, after sigil-free literal text `pre`, closes the
+followed by a maximal name `[A-Z0-9_]+` that is a variable name (`isRecognisedName`: it starts
+with `[A-Z_]`, or it is a transformation key), after sigil-free literal text `pre`, closes the
 fragment `pre`, yields the variable (`$$$NAME` = multi capture; `$NAME`/`$$NAME` = the single
 capture `NAME`, or the transformed variable when `NAME` is a transformation key) with the
 indentation of `pre`, and scanning resumes right after the name. -/
 theorem template_first_var (mc : UInt8) (hmc : isValidMetaVarByte mc = false) (tr : List Bytes)
     (pre : Bytes) (k : Nat) (hk : 1 ≤ k ∧ k ≤ 3) (name post : Bytes) (hpre : mc ∉ pre)
     (hne : name ≠ []) (hall : name.all isValidMetaVarByte = true)
+    (hrec : isRecognisedName tr name = true)
     (hpost : ∀ b, post.head? = some b → isValidMetaVarByte b = false) :
     createTemplate (pre ++ (List.replicate k mc ++ name ++ post)) mc tr =
       { fragments := pre :: (scanTemplate mc tr (pre ++ List.replicate k mc ++ name) [] 0 post).1,
@@ -364,13 +366,137 @@ theorem template_first_var (mc : UInt8) (hmc : isValidMetaVarByte mc = false) (t
   unfold createTemplate
   rw [scan_literal_prefix mc tr pre [] [] _ hpre]
   simp only [List.nil_append]
-  rw [scan_var_step mc hmc tr pre pre k hk name post hne hall hpost]
+  rw [scan_var_step mc hmc tr pre pre k hk name post hne hall hrec hpost]
 
-/-- every recognised variable has a non-empty name over `[A-Z0-9_]` -/
+/-- every recognised variable has a non-empty name over `[A-Z0-9_]` that is a variable name:
+it starts with `[A-Z_]` or is a declared transformation (`isRecognisedName`) -/
 theorem template_var_names_valid (mc : UInt8) (tr : List Bytes) (src : Bytes) (v : MetaVarExtract)
     (n : Nat) (h : splitFirstMetaVar src mc tr = some (v, n)) :
-    v.usedVar ≠ [] ∧ v.usedVar.all isValidMetaVarByte = true :=
-  ⟨(splitFirst_name_valid h).1, (splitFirst_name_valid h).2.1⟩
+    v.usedVar ≠ [] ∧ v.usedVar.all isValidMetaVarByte = true ∧
+      isRecognisedName tr v.usedVar = true :=
+  ⟨(splitFirst_name_valid h).1, (splitFirst_name_valid h).2.1, (splitFirst_name_valid h).2.2.2⟩
+
+/-- **No digit-first variable.** Every variable of a parsed template has a name that starts
+with a valid first byte (`[A-Z_]`, `is_valid_first_char`) or is the name of a declared
+transformation. -/
+theorem template_var_first_char (mc : UInt8) (tr : List Bytes) (tmpl : Bytes) :
+    ∀ x ∈ (createTemplate tmpl mc tr).vars,
+      (∃ b rest, x.1.usedVar = b :: rest ∧ isValidFirstByte b = true) ∨ x.1.usedVar ∈ tr := by
+  intro x hx
+  unfold createTemplate at hx
+  obtain ⟨src, n, hs⟩ := scan_vars_split mc tr tmpl [] [] 0 x hx
+  have hrec := (splitFirst_name_valid hs).2.2.2
+  unfold isRecognisedName at hrec
+  simp only [Bool.or_eq_true, List.contains_iff_mem] at hrec
+  rcases hrec with h | h
+  · left
+    cases hu : x.1.usedVar with
+    | nil => rw [hu] at h; cases h
+    | cons b rest => rw [hu] at h; exact ⟨b, rest, rfl, h⟩
+  · exact .inr h
+
+/-- the same fact for a single call of `split_first_meta_var` -/
+theorem splitFirst_var_first_char (mc : UInt8) (tr : List Bytes) (src : Bytes) (v : MetaVarExtract)
+    (n : Nat) (h : splitFirstMetaVar src mc tr = some (v, n)) :
+    (∃ b rest, v.usedVar = b :: rest ∧ isValidFirstByte b = true) ∨ v.usedVar ∈ tr := by
+  have hrec := (splitFirst_name_valid h).2.2.2
+  unfold isRecognisedName at hrec
+  simp only [Bool.or_eq_true, List.contains_iff_mem] at hrec
+  rcases hrec with h | h
+  · left
+    cases hu : v.usedVar with
+    | nil => rw [hu] at h; cases h
+    | cons b rest => rw [hu] at h; exact ⟨b, rest, rfl, h⟩
+  · exact .inr h
+
+/-- One scanner step at a digit-first candidate (`$100`, `$$1A`, `$$$9`) that is not a
+transformation key: after sigil-free text `pre`, the sigils and the whole run `d :: name`
+(`d` a digit, `name` over `[A-Z0-9_]`, maximal) are literal text — they join the fragment that
+`pre` started, no variable is recorded for them, and scanning resumes right after the run. -/
+theorem template_digit_first_step (mc : UInt8) (hmc : isValidMetaVarByte mc = false)
+    (tr : List Bytes) (pre : Bytes) (k : Nat) (hk : 1 ≤ k ∧ k ≤ 3) (d : UInt8) (name post : Bytes)
+    (hpre : mc ∉ pre) (hd : 0x30 ≤ d ∧ d ≤ 0x39) (hall : name.all isValidMetaVarByte = true)
+    (htr : (d :: name) ∉ tr)
+    (hpost : ∀ b, post.head? = some b → isValidMetaVarByte b = false) :
+    createTemplate (pre ++ (List.replicate k mc ++ (d :: name) ++ post)) mc tr =
+      { fragments := (scanTemplate mc tr (pre ++ List.replicate k mc ++ (d :: name))
+                        (pre ++ List.replicate k mc ++ (d :: name)) 0 post).1,
+        vars := (scanTemplate mc tr (pre ++ List.replicate k mc ++ (d :: name))
+                        (pre ++ List.replicate k mc ++ (d :: name)) 0 post).2 } := by
+  obtain ⟨hdv, hdf⟩ := (digit_iff_valid_not_first d).mp hd
+  have hall' : (d :: name).all isValidMetaVarByte = true := by
+    simp only [List.all_cons, hdv, hall, Bool.and_self]
+  have hrec : isRecognisedName tr (d :: name) = false := by
+    simp only [isRecognisedName, hdf, Bool.false_or]
+    simpa using htr
+  unfold createTemplate
+  rw [scan_literal_prefix mc tr pre [] [] _ hpre]
+  simp only [List.nil_append]
+  rw [scan_unrecognised_step mc hmc tr (d :: name) post (by simp) hall' hrec hpost k hk.2 pre pre]
+
+/-- **A digit-first candidate is literal text.** With no transformation of that name (in
+particular for `tr = []`), a template `pre $100 post` — `k ∈ {1,2,3}` sigils followed by a
+maximal run `d :: name` over `[A-Z0-9_]` whose first byte `d` is a digit, no other sigil in the
+template — is `Textual`: the single fragment is the whole template, there is no variable.
+(The pinned scanner made `100` an always-unbound variable and dropped `$100` from the
+replacement: `splitFirstPinned_dollar_100`.) -/
+theorem template_digit_first_literal (mc : UInt8) (hmc : isValidMetaVarByte mc = false)
+    (tr : List Bytes) (pre : Bytes) (k : Nat) (hk : 1 ≤ k ∧ k ≤ 3) (d : UInt8) (name post : Bytes)
+    (hpre : mc ∉ pre) (hd : 0x30 ≤ d ∧ d ≤ 0x39) (hall : name.all isValidMetaVarByte = true)
+    (htr : (d :: name) ∉ tr)
+    (hhead : ∀ b, post.head? = some b → isValidMetaVarByte b = false) (hpost : mc ∉ post) :
+    createTemplate (pre ++ (List.replicate k mc ++ (d :: name) ++ post)) mc tr =
+      { fragments := [pre ++ (List.replicate k mc ++ (d :: name) ++ post)], vars := [] } := by
+  rw [template_digit_first_step mc hmc tr pre k hk d name post hpre hd hall htr hhead]
+  have := scan_literal_prefix mc tr post (pre ++ List.replicate k mc ++ (d :: name))
+    (pre ++ List.replicate k mc ++ (d :: name)) [] hpost
+  simp only [List.append_nil] at this
+  rw [this]
+  simp [scanTemplate]
+
+/-- the instance asked for: no transformations, `$` + digits (+ more name bytes) only -/
+theorem template_digit_first_literal_nil (d : UInt8) (name : Bytes)
+    (hd : 0x30 ≤ d ∧ d ≤ 0x39) (hall : name.all isValidMetaVarByte = true) :
+    createTemplate (0x24 :: d :: name) 0x24 [] =
+      { fragments := [0x24 :: d :: name], vars := [] } := by
+  have := template_digit_first_literal 0x24 (by decide) [] [] 1 (by omega) d name []
+    (by simp) hd hall (by simp) (by simp) (by simp)
+  simpa using this
+
+/-- regression pair, current code: the template `$100` (no transformations) is `Textual` —
+one fragment `$100`, no variable -/
+theorem createTemplate_dollar_100 :
+    createTemplate [0x24, 0x31, 0x30, 0x30] 0x24 [] =
+      { fragments := [[0x24, 0x31, 0x30, 0x30]], vars := [] } := by
+  decide
+
+/-- regression pair, pinned code: `split_first_meta_var("$100")` was the single capture `100`
+spanning all 4 bytes (never bound, so `$100` vanished from the replacement) -/
+theorem splitFirstPinned_dollar_100 :
+    splitFirstMetaVarPinned [0x24, 0x31, 0x30, 0x30] 0x24 [] =
+      some (.single [0x31, 0x30, 0x30], 4) ∧
+    splitFirstMetaVar [0x24, 0x31, 0x30, 0x30] 0x24 [] = none := by
+  decide
+
+/-- the current scanner only ever drops recognitions of the pinned one -/
+theorem splitFirst_pinned_of_some (src : Bytes) (mc : UInt8) (tr : List Bytes)
+    (r : MetaVarExtract × Nat) (h : splitFirstMetaVar src mc tr = some r) :
+    splitFirstMetaVarPinned src mc tr = some r :=
+  AGV.splitFirst_pinned_of_some h
+
+/-- a digit-first name is still a variable when it is a declared transformation:
+`$1X` with `transform = ["1X"]` -/
+example : createTemplate [0x24, 0x31, 0x58] 0x24 [[0x31, 0x58]] =
+    { fragments := [[], []], vars := [(.transformed [0x31, 0x58], 0)] } := by
+  decide
+
+/-- `cost $100 for $A`: `$100` stays in the first fragment, `$A` is the only variable -/
+example : createTemplate
+    [0x63, 0x6F, 0x73, 0x74, 0x20, 0x24, 0x31, 0x30, 0x30, 0x20, 0x66, 0x6F, 0x72, 0x20, 0x24, 0x41]
+    0x24 [] =
+    { fragments := [[0x63, 0x6F, 0x73, 0x74, 0x20, 0x24, 0x31, 0x30, 0x30, 0x20, 0x66, 0x6F, 0x72, 0x20], []],
+      vars := [(.single [0x41], 0)] } := by
+  decide
 
 /-- non-vacuity / worked instance: `f($A, $$$R)` as bytes -/
 example : createTemplate [0x66, 0x28, 0x24, 0x41, 0x2C, 0x20, 0x24, 0x24, 0x24, 0x52, 0x29] 0x24 [] =
